@@ -28,7 +28,7 @@ WALL = {"quick": 900, "thorough": 7 * 3600}
 SHRINK_WALL = {"quick": 150, "thorough": 900}
 SELFTEST_N = {"quick": 4, "thorough": 16}
 CHUNK = 1
-CASES_PER_BATCH = {"quick": 6, "thorough": 10}
+CASES_PER_BATCH = {"quick": 9, "thorough": 10}
 K_SEEDS = {"quick": 6, "thorough": 16}
 RULE = ("Scenario = seeded batch of cases (graph, delivery channel in {nt, tsv, turtle_iter, turtle, xml, json-ld, rdflib.Graph, "
         "endpoint cache on/off with canonical row order, local shape map}, target incl. shape maps and SPARQL selectors, options, "
